@@ -322,7 +322,10 @@ impl Envelope {
                 if !self.is_signature_from_key(&signature, key) {
                     return None;
                 }
-                Some(signature_object.clone())
+                // Only the signature itself has been verified. Assertions attached
+                // directly to an unwrapped signature object are covered by no
+                // signature and must not be handed back as its metadata.
+                Some(Envelope::new(signature))
             }
         });
 
